@@ -66,6 +66,21 @@ def spanning_states(d):
     return labels, vecs
 
 
+def phase_family(d, phases, moduli):
+    """State vectors with ALL amplitudes non-zero and complex: psi_k ~ moduli[k] * exp(i phases[p_k]),
+    normalised, for the complete product (p_0..p_{d-1}) over the phase alphabet (a common phase
+    is included on purpose: |psi><psi| must not depend on it).  Labels 'g<p_0><p_1>..'.
+    Returns (labels, vectors)."""
+    w = numpy.asarray(moduli[:d], dtype=float)
+    w = w / numpy.sqrt(numpy.sum(w ** 2))
+    labels, vecs = [], []
+    for idx in itertools.product(range(len(phases)), repeat=d):
+        ph = numpy.array([phases[p] for p in idx], dtype=float)
+        labels.append("g" + "".join(str(p) for p in idx))
+        vecs.append(w * numpy.exp(1j * ph))
+    return labels, vecs
+
+
 def projector(psi):
     psi = numpy.asarray(psi, dtype=complex)
     return numpy.outer(psi, psi.conj())
